@@ -174,7 +174,7 @@ def build(desc):
         tsym = syms[tname]
         if role == "diff":
             expr = gtirb.SymAddrAddr(1, item.get("a", 0), tsym, syms[item["t2"]])
-            ed = ("diff", tname, item["t2"], item.get("a", 0), ())
+            ed = ("diff", tname, item["t2"], item.get("a", 0), (), 1)
         else:
             attrs = attrs_for(desc, item["v"], role, tname in externs)
             expr = gtirb.SymAddrConst(item.get("a", 0), tsym, attrs)
